@@ -68,6 +68,28 @@ theorem from_u128_exact (x : Nat) (hx : x < 2^128) :
   rw [hn.2]; exact h.2
 example : (340282366920938463463374607431768211455 : Nat) < 2^128 := by decide
 
+/-- `From<i64>` (and through it `From<i8/i16/i32/isize>`): every signed input is mapped to its residue mod `P` -/
+theorem from_i64_exact (v : Int) (h1 : -(2:Int)^63 ≤ v) (h2 : v < (2:Int)^63) :
+    BF.fromI64 v < P ∧ ((bfe_value (BF.fromI64 v) : Nat) : Int) = v % (18446744069414584321 : Int) :=
+  fromI64_spec v h1 h2
+example : -(2:Int)^63 ≤ -9223372036854775808 ∧ (-9223372036854775808 : Int) < (2:Int)^63 := by decide
+
+/-- `From<BFieldElement> for i64`: the representative in `[-2^63, 2^63)`... of the value: it is congruent to the value and
+    in the `i64` range (values above `i64::MAX` are mapped to `value - P`) -/
+theorem to_i64_exact (a : Nat) (ha : a < P) :
+    -(2:Int)^63 ≤ BF.toI64 a ∧ BF.toI64 a < (2:Int)^63 ∧ (BF.toI64 a) % (18446744069414584321 : Int) = (bfe_value a : Int) :=
+  toI64_spec a ha
+
+/-- `TryFrom<BFieldElement>` for `u8/u16/u32/usize` (`bits` = 8/16/32/64) and `i8/i16/i32/isize`: succeeds exactly when
+    the canonical value fits, and then returns it -/
+theorem try_into_exact (bits : Nat) (a : Nat) :
+    (BF.tryIntoU bits a = some (bfe_value a) ↔ bfe_value a < 2^bits) ∧
+    (BF.tryIntoU bits a = none ↔ ¬ bfe_value a < 2^bits) ∧
+    (BF.tryIntoI bits a = some (bfe_value a) ↔ bfe_value a < 2^(bits-1)) ∧
+    (BF.tryIntoI bits a = none ↔ ¬ bfe_value a < 2^(bits-1)) := by
+  unfold BF.tryIntoU BF.tryIntoI
+  refine ⟨?_, ?_, ?_, ?_⟩ <;> (simp only; split <;> simp_all)
+
 /-- the raw-word operations are the field operations of `ZMod P` under the bijection `toF` between canonical words
     and `ZMod P` (so every generic algorithm of the library that reaches the base field only through its operators
     computes in the field `ZMod P`) -/
